@@ -714,6 +714,17 @@ def _desugar_comprehensions(fn, names, is_method):
             if isinstance(st, ast.Try):
                 for h in st.handlers:
                     h.body = rewrite(h.body)
+            # x = h(..) if c else d   ->   if c: x = h(..)  else: x = d      (the helper call sits in a conditionally evaluated branch)
+            if isinstance(st, (ast.Assign, ast.Return)) and isinstance(st.value, ast.IfExp) and (not isinstance(st, ast.Assign) or len(st.targets) == 1) and \
+                    [c for c in _helper_calls(ast.Expr(value=st.value.body), names, is_method) + _helper_calls(ast.Expr(value=st.value.orelse), names, is_method) if c[2]] and \
+                    not _helper_calls(ast.Expr(value=st.value.test), names, is_method):
+                def mk(v_):
+                    n_ = ast.Return(value=v_) if isinstance(st, ast.Return) else ast.Assign(targets=[copy.deepcopy(st.targets[0])], value=v_, lineno=st.lineno)
+                    return ast.copy_location(n_, st)
+                if_ = ast.copy_location(ast.If(test=st.value.test, body=[mk(st.value.body)], orelse=[mk(st.value.orelse)]), st)
+                ast.fix_missing_locations(if_)
+                out.extend(rewrite([if_]))
+                continue
             comp = None
             if isinstance(st, ast.Expr) and isinstance(st.value, ast.Call) and isinstance(st.value.func, ast.Attribute) and st.value.func.attr == 'extend' \
                     and len(st.value.args) == 1 and not st.value.keywords and isinstance(st.value.args[0], (ast.GeneratorExp, ast.ListComp)) \
